@@ -190,6 +190,7 @@ def _main(a, seed, t_start):
     reg0 = _registry()
     done = {t[1] for t in tasks}
     outs, closure_added, pending = [], [], tasks
+    used_all = set()          # every contract applied at a call site in this property's run (all rounds)
     while pending:
         with ctx.Pool(min(a.jobs, max(1, len(pending)))) as pool:
             round_outs = pool.map(run_unit, pending, chunksize=1)
@@ -199,6 +200,7 @@ def _main(a, seed, t_start):
         used = set()
         for o in round_outs:
             used.update((o.get('stats') or {}).get('callees', []))
+        used_all |= used
         new = []
         for n in sorted(used):
             c = reg0.get(n)
@@ -451,8 +453,14 @@ def _main(a, seed, t_start):
         'refuted': [{'obligation': r['name'], 'why': r['detail']} for r in refuted][:50],
         'bounded_checks': bounded_rows,
         'functions_bounded_not_proved': sorted(n for (k, n) in spec.units() if k == 'contract' and reg.get(n).bounded_only),
-        'assumed_contracts': sorted({c.name for c in reg.all if c.trusted}),
-        'assumed_contracts_established_by': {c.name: _established(reg, c) for c in reg.all if c.trusted},
+        # assumed = trusted views this property's cone actually applied at a call site (the registry-wide list is kept
+        # separately: a trusted view that no unit of this run applied is not an assumption of this property)
+        'assumed_contracts': sorted({c.name for c in reg.all if c.trusted and c.name in used_all}),
+        'assumed_contracts_established_by': {c.name: _established(reg, c) for c in reg.all
+                                             if c.trusted and c.name in used_all},
+        'assumed_contracts_established_in_this_run': bool(thorough),
+        'trusted_views_in_registry_not_applied_here': sorted({c.name for c in reg.all
+                                                              if c.trusted and c.name not in used_all}),
         'known_findings_hit': [kf for kf, _ in known_hits],
         'source_sha256': source_hashes(),
         'samples': samples,
